@@ -157,7 +157,11 @@ int vs_once(pthread_once_t *c, void (*f)(void)) {
 #include <sys/uio.h>
 ssize_t vs_write(int fd, const void *b, size_t n) { int t = vs_tid; if (t >= 0 && active) point(t, VS_USER, (void *)1); return write(fd, b, n); }
 ssize_t vs_writev(int fd, const struct iovec *iov, int c) { int t = vs_tid; if (t >= 0 && active) point(t, VS_USER, (void *)2); return writev(fd, iov, c); }
-int vs_close(int fd) { int t = vs_tid; if (t >= 0 && active) point(t, VS_USER, (void *)3); return close(fd); }
+/* a close() issued by the library that fails with EBADF closed something that was not (any longer) open: the second half of a double close
+   - or the victim of another thread's double close, whose first half had freed the number for reuse */
+static int bad_closes;
+int vs_bad_closes(void) { return __atomic_load_n(&bad_closes, __ATOMIC_RELAXED); }
+int vs_close(int fd) { int t = vs_tid; if (t >= 0 && active) point(t, VS_USER, (void *)3); int r = close(fd); if (r < 0 && errno == EBADF) { int e = errno; __atomic_add_fetch(&bad_closes, 1, __ATOMIC_RELAXED); errno = e; } return r; }
 #include <stdio.h>
 #include <sys/stat.h>
 int vs_fprintf(FILE *f, const char *fmt, ...) { int t = vs_tid; if (t >= 0 && active) point(t, VS_USER, (void *)4); va_list ap; va_start(ap, fmt); int r = vfprintf(f, fmt, ap); va_end(ap); return r; }
